@@ -6,7 +6,9 @@ use palette::convert::FromColorUnclamped;
 use palette::encoding::{AdobeRgb, DciP3, DisplayP3, Linear, ProPhotoRgb, Rec2020, Rec709, Srgb};
 use palette::rgb::{Rgb, RgbSpace, RgbStandard};
 use palette::white_point::{self as wp, WhitePoint};
-use palette::{Lab, Luv, Xyz};
+use palette::{Lab, Luv, Oklab, Xyz};
+use palette::chromatic_adaptation::AdaptFromUnclamped;
+use palette::lms::matrix::{Bradford, UnitMatrix, VonKries};
 
 macro_rules! per_standard {
     ($l:expr, $key:literal, $S:ty, $refname:literal) => {{
@@ -111,7 +113,122 @@ macro_rules! per_standard {
     }};
 }
 
+macro_rules! oklab_std {
+    ($l:expr, $key:literal, $S:ty) => {{
+        type Sp = <$S as RgbStandard>::Space;
+        obl!($l; concat!("c14_", $key, "_oklab_neutral"), "C14", Tier::Quick,
+            concat!(stringify!($S), " (D65): white converts to Oklab (1, 0, 0) and every linear grey to a = b = 0 (1e-3), through the direct RGB->Oklab conversion and through XYZ"),
+            ["<Oklab<T> as FromColorUnclamped<Rgb<S,T>>>::from_color_unclamped", "<Oklab<T> as FromColorUnclamped<Xyz<D65,T>>>::from_color_unclamped", "palette::oklab::linear_srgb_to_oklab"],
+            [var("g", 0.0, 1.0)];
+            |v| {
+                let mut r = Res::<B>::new();
+                let g = v[0];
+                let grey = Rgb::<Linear<Sp>, T>::new(g, g, g);
+                let direct: Oklab<T> = Oklab::from_color_unclamped(grey);
+                let xyz: Xyz<wp::D65, T> = Xyz::from_color_unclamped(grey);
+                let via: Oklab<T> = Oklab::from_color_unclamped(xyz);
+                r.goal("direct_ab", direct.a.close(T::k(0.0), 1e-3) & direct.b.close(T::k(0.0), 1e-3));
+                r.goal("via_xyz_ab", via.a.close(T::k(0.0), 1e-3) & via.b.close(T::k(0.0), 1e-3));
+                let w = Rgb::<Linear<Sp>, T>::new(T::k(1.0), T::k(1.0), T::k(1.0));
+                let ow: Oklab<T> = Oklab::from_color_unclamped(w);
+                r.goal("white", ow.l.close(T::k(1.0), 1e-3) & ow.a.close(T::k(0.0), 1e-3) & ow.b.close(T::k(0.0), 1e-3));
+                r
+            });
+    }};
+}
+
+macro_rules! adapt {
+    ($l:expr, $tier:expr, $mk:literal, $M:ty, $k1:literal, $W1:ty, $k2:literal, $W2:ty) => {{
+        obl!($l; concat!("c14_adapt_", $mk, "_", $k1, "_to_", $k2), "C14", $tier,
+            concat!("chromatic adaptation ", stringify!($M), " ", $k1, " -> ", $k2, ": the source white point maps onto the destination white point (1e-6: the published 7-digit cone matrices and their published inverses leave ~5e-8) and adapting there and back returns every XYZ in [0,1.2]^3 (1e-6)"),
+            ["<Xyz<Wp2,T> as AdaptFromUnclamped<Xyz<Wp1,T>>>::adapt_from_unclamped_with", "chromatic_adaptation::adaptation_matrix", "chromatic_adaptation::diagonal_matrix", "Matrix3::then", "lms::matrix"],
+            [var("x", 0.0, 1.2), var("y", 0.0, 1.2), var("z", 0.0, 1.2)];
+            |v| {
+                let mut r = Res::<B>::new();
+                let w1: Xyz<$W1, T> = <$W1 as WhitePoint<T>>::get_xyz().with_white_point();
+                let w2: Xyz<wp::Any, T> = <$W2 as WhitePoint<T>>::get_xyz();
+                let aw: Xyz<$W2, T> = <Xyz<$W2, T> as AdaptFromUnclamped<Xyz<$W1, T>>>::adapt_from_unclamped_with::<$M>(w1);
+                r.goal("white_to_white", aw.x.close(w2.x, 1e-6) & aw.y.close(w2.y, 1e-6) & aw.z.close(w2.z, 1e-6));
+                r.show("white_err_x", aw.x - w2.x); r.show("white_err_y", aw.y - w2.y); r.show("white_err_z", aw.z - w2.z);
+                let c: Xyz<$W1, T> = Xyz::new(v[0], v[1], v[2]);
+                let there: Xyz<$W2, T> = <Xyz<$W2, T> as AdaptFromUnclamped<Xyz<$W1, T>>>::adapt_from_unclamped_with::<$M>(c);
+                let back: Xyz<$W1, T> = <Xyz<$W1, T> as AdaptFromUnclamped<Xyz<$W2, T>>>::adapt_from_unclamped_with::<$M>(there);
+                r.goal("there_and_back", back.x.close(v[0], 1e-6) & back.y.close(v[1], 1e-6) & back.z.close(v[2], 1e-6));
+                r
+            });
+    }};
+}
+
+macro_rules! adapt_same {
+    ($l:expr, $mk:literal, $M:ty, $k1:literal, $W1:ty) => {{
+        obl!($l; concat!("c14_adapt_", $mk, "_", $k1, "_identity"), "C14", Tier::Quick,
+            concat!("chromatic adaptation ", stringify!($M), " between equal white points (", $k1, ") is the identity (syntactically the same terms)"),
+            ["<Xyz<Wp,T> as AdaptFromUnclamped<Xyz<Wp,T>>>::adapt_from_unclamped_with"],
+            [var("x", 0.0, 1.2), var("y", 0.0, 1.2), var("z", 0.0, 1.2)];
+            |v| {
+                let mut r = Res::<B>::new();
+                let c: Xyz<$W1, T> = Xyz::new(v[0], v[1], v[2]);
+                let same: Xyz<$W1, T> = <Xyz<$W1, T> as AdaptFromUnclamped<Xyz<$W1, T>>>::adapt_from_unclamped_with::<$M>(c);
+                r.goal("identity", same.x.eqv(v[0]) & same.y.eqv(v[1]) & same.z.eqv(v[2]));
+                r
+            });
+    }};
+}
+
+macro_rules! adapt_methods {
+    ($l:expr, $tier:expr, $k1:literal, $W1:ty, $k2:literal, $W2:ty) => {{
+        adapt!($l, $tier, "bradford", Bradford, $k1, $W1, $k2, $W2);
+        adapt!($l, $tier, "vonkries", VonKries, $k1, $W1, $k2, $W2);
+        adapt!($l, $tier, "xyzscaling", UnitMatrix, $k1, $W1, $k2, $W2);
+    }};
+}
+
+#[allow(deprecated)]
+fn legacy(l: &mut Vec<Obl>) {
+    use palette::chromatic_adaptation::{AdaptFrom, Method};
+    obl!(l; "c14_adapt_legacy_api_d65_d50", "C14", Tier::Quick,
+        "deprecated AdaptFrom::adapt_from_using (Bradford / VonKries / XyzScaling), D65 -> D50: agrees with the current AdaptFromUnclamped API (1e-9) and maps white to white",
+        ["AdaptFrom::adapt_from_using", "TransformMatrix::generate_transform_matrix"],
+        [var("x", 0.0, 1.2), var("y", 0.0, 1.2), var("z", 0.0, 1.2)];
+        |v| {
+            let mut r = Res::<B>::new();
+            let c: Xyz<wp::D65, T> = Xyz::new(v[0], v[1], v[2]);
+            let a: Xyz<wp::D50, T> = Xyz::adapt_from_using(c, Method::Bradford);
+            let b: Xyz<wp::D50, T> = <Xyz<wp::D50, T> as AdaptFromUnclamped<Xyz<wp::D65, T>>>::adapt_from_unclamped_with::<Bradford>(c);
+            r.goal("bradford", a.x.close(b.x, 1e-9) & a.y.close(b.y, 1e-9) & a.z.close(b.z, 1e-9));
+            let a: Xyz<wp::D50, T> = Xyz::adapt_from_using(c, Method::VonKries);
+            let b: Xyz<wp::D50, T> = <Xyz<wp::D50, T> as AdaptFromUnclamped<Xyz<wp::D65, T>>>::adapt_from_unclamped_with::<VonKries>(c);
+            r.goal("vonkries", a.x.close(b.x, 1e-9) & a.y.close(b.y, 1e-9) & a.z.close(b.z, 1e-9));
+            let a: Xyz<wp::D50, T> = Xyz::adapt_from_using(c, Method::XyzScaling);
+            let b: Xyz<wp::D50, T> = <Xyz<wp::D50, T> as AdaptFromUnclamped<Xyz<wp::D65, T>>>::adapt_from_unclamped_with::<UnitMatrix>(c);
+            r.goal("xyzscaling", a.x.close(b.x, 1e-9) & a.y.close(b.y, 1e-9) & a.z.close(b.z, 1e-9));
+            r
+        });
+}
+
 pub fn register(l: &mut Vec<Obl>) {
+    oklab_std!(l, "srgb", Srgb);
+    oklab_std!(l, "adobe", AdobeRgb);
+    oklab_std!(l, "rec2020", Rec2020);
+    oklab_std!(l, "displayp3", DisplayP3);
+    legacy(l);
+    adapt_methods!(l, Tier::Quick, "d65", wp::D65, "d50", wp::D50);
+    adapt_methods!(l, Tier::Quick, "d50", wp::D50, "d65", wp::D65);
+    adapt_methods!(l, Tier::Quick, "a", wp::A, "d65", wp::D65);
+    adapt_methods!(l, Tier::Quick, "d65", wp::D65, "e", wp::E);
+    adapt_methods!(l, Tier::Quick, "c", wp::C, "a", wp::A);
+    adapt_methods!(l, Tier::Quick, "f2", wp::F2, "d50", wp::D50);
+    adapt_methods!(l, Tier::Thorough, "b", wp::B, "d65", wp::D65);
+    adapt_methods!(l, Tier::Thorough, "d55", wp::D55, "d65", wp::D65);
+    adapt_methods!(l, Tier::Thorough, "d75", wp::D75, "d50", wp::D50);
+    adapt_methods!(l, Tier::Thorough, "f7", wp::F7, "a", wp::A);
+    adapt_methods!(l, Tier::Thorough, "f11", wp::F11, "e", wp::E);
+    adapt_methods!(l, Tier::Thorough, "e", wp::E, "c", wp::C);
+    adapt_methods!(l, Tier::Thorough, "d65", wp::D65, "f2", wp::F2);
+    adapt_methods!(l, Tier::Thorough, "d50", wp::D50, "d75", wp::D75);
+    adapt_same!(l, "bradford", Bradford, "d65", wp::D65);
+    adapt_same!(l, "vonkries", VonKries, "d50", wp::D50);
+    adapt_same!(l, "xyzscaling", UnitMatrix, "a", wp::A);
     per_standard!(l, "srgb", Srgb, "srgb");
     per_standard!(l, "adobe", AdobeRgb, "adobe");
     per_standard!(l, "rec709", Rec709, "srgb");
